@@ -23,6 +23,9 @@ type RecStorage struct {
 	FailRetrieve   map[atree.SlabID]bool
 	Retrieves      int
 	FailRetrieveAt int // 1-based position of the Retrieve call to fail (0 = none)
+	// EffsAtFail is the number of mutating calls recorded when the last injected Retrieve failure
+	// fired (0 = the request had not touched storage yet: the failure hit its lookup phase).
+	EffsAtFail int
 }
 
 var _ atree.SlabStorage = &RecStorage{}
@@ -51,6 +54,7 @@ func (r *RecStorage) GenerateSlabID(a atree.Address) (atree.SlabID, error) {
 func (r *RecStorage) Retrieve(id atree.SlabID) (atree.Slab, bool, error) {
 	r.Retrieves++
 	if r.FailRetrieve[id] || (r.FailRetrieveAt != 0 && r.Retrieves == r.FailRetrieveAt) {
+		r.EffsAtFail = len(r.Effs)
 		return nil, false, ErrInjected
 	}
 	return r.Inner.Retrieve(id)
